@@ -250,3 +250,36 @@ Theorem C12_udp_same_schedule_locked_ok :
   b_cw (fst s) = true /\ b_werr (fst s) = false.
 Proof. exact c12_own_same_schedule_ok. Qed.
 Print Assumptions C12_udp_same_schedule_locked_ok.
+
+(* ---- half-close followed by a long silence on the still-open direction ---- *)
+(* under every schedule and every endpoint configuration Bidirectional arms NO read deadline on either endpoint: after
+   one direction has half-closed, the other may stay silent for any length of time and is still served when it goes
+   on (the model's environment lets any armed deadline expire) *)
+Theorem C12_tcp_no_deadline_on_the_open_direction :
+  forall cfgA cfgB sA sB cutsA cutsB endA endB wdA wdB empA empB sched,
+  let s := tcp_run_w cfgA cfgB sA sB cutsA cutsB endA endB wdA wdB empA empB sched in
+  sh_dl_a (fst s) = false /\ sh_dl_b (fst s) = false.
+Proof. exact c12_tcp_no_deadline. Qed.
+Print Assumptions C12_tcp_no_deadline_on_the_open_direction.
+
+(* the variant that arms a drain deadline on the endpoint it has just half-closed: the reply that comes after a silence
+   longer than the deadline is lost, ReceiveError is a timeout *)
+Theorem C12_tcp_drain_deadline_variant_refuted :
+  let s := run tsh (nat * tpc) (tstep CopyBufferSize true)
+             (tcp_init (dirwe [71; 69; 84] [] 0 false [] None false cfg_direct) (dirwe [50; 48; 48] [] 0 false [] None false cfg_direct))
+             ([0; 0; 0; 0; 1; 1; 1; 2; 2; 2; 2]%nat) in
+  sh_ret (fst s) = true /\ d_out (sh_d0 (fst s)) = [71; 69; 84] /\ d_out (sh_d1 (fst s)) = [] /\
+  d_err (sh_d1 (fst s)) = 8 /\ sh_dl_b (fst s) = true.
+Proof. exact c12_tcp_drain_deadline_refuted. Qed.
+Print Assumptions C12_tcp_drain_deadline_variant_refuted.
+
+(* ---- the client's SOCKS5 UDP tunnel endpoint (socks5_tunnel.go udpTunnelConn) ---- *)
+(* whatever the transport does to the stream — records coalesced into one read, split anywhere, any carry-over rule of
+   the chunk oracle, any end kind — the receive loop returns exactly the datagrams SendPacket framed (empty ones
+   included), in order, and then fails *)
+Theorem C12_socks_udp_tunnel_roundtrip_any_chunking :
+  forall (ds : list dgram) (r : rd),
+  Forall (fun d => lenN d < 65536) ds -> rest r = encode_all ds ->
+  tc_recv_all (S (length ds)) r = ds.
+Proof. exact tc_roundtrip_any_chunking. Qed.
+Print Assumptions C12_socks_udp_tunnel_roundtrip_any_chunking.
